@@ -408,7 +408,10 @@ prefixexp:
                 ex.AdjustRet = true
             }
             $$ = $2
-            $$.SetLine($1.Pos.Line)
+            if _, ok := $2.(*ast.FunctionExpr); !ok {
+                // a function keeps the line of its own keyword (linedefined)
+                $$.SetLine($1.Pos.Line)
+            }
         }
 
 afunctioncall:
